@@ -283,6 +283,48 @@ fn rand_ms(rng: &mut Rng, terms: &[ST], gnames: &[GraphName<ST>], graph: bool) -
     let g = if graph { GM::Any } else { GM::random(rng, terms, gnames, 0) };
     (ms, g)
 }
+/// pattern aimed at a quad that IS in the store: a random subset of positions bound to its terms through a
+/// constant-exposing matcher, the others through random (often selective, non-constant) matchers
+pub fn aimed_ms(rng: &mut Rng, rows: &[Value], terms: &[ST], gnames: &[GraphName<ST>], graph: bool) -> Option<([TM; 3], GM)> {
+    if rows.is_empty() {
+        return None;
+    }
+    let q = json_q(rng.pick(rows));
+    let shape = rng.below(16);
+    let bound = |rng: &mut Rng, t: &ST| match rng.below(4) {
+        0 => TM::Opt(Some(t.clone())),
+        1 => TM::Arr1([t.clone()]),
+        2 => TM::Slice(vec![t.clone()]),
+        _ => TM::Ref(Box::new(TM::Arr1([t.clone()]))),
+    };
+    let free = |rng: &mut Rng, t: &ST| match rng.below(5) {
+        0 => TM::Any,
+        1 => TM::Arr2([t.clone(), rng.pick(terms).clone()]),
+        2 => TM::Not(Box::new(TM::Opt(Some(rng.pick(terms).clone())))),
+        3 => TM::Closure(vec![t.clone(), rng.pick(terms).clone()], rng.chance(1, 3)),
+        _ => TM::random(rng, terms, 1),
+    };
+    let mut pos = |rng: &mut Rng, i: usize| if shape & (1 << i) != 0 { bound(rng, &q.0[i]) } else { free(rng, &q.0[i]) };
+    let ms = [pos(rng, 0), pos(rng, 1), pos(rng, 2)];
+    let g = if graph {
+        GM::Any
+    } else if shape & 8 != 0 {
+        match rng.below(3) {
+            0 => GM::Opt(Some(q.1.clone())),
+            1 => GM::Arr1([q.1.clone()]),
+            _ => match &q.1 { Some(t) => GM::Gn(TM::Opt(Some(t.clone()))), None => GM::Slice(vec![None]) },
+        }
+    } else {
+        match rng.below(5) {
+            0 => GM::Any,
+            1 => GM::Arr2([q.1.clone(), rng.pick(gnames).clone()]),
+            2 => GM::Not(Box::new(GM::Opt(Some(rng.pick(gnames).clone())))),
+            3 => GM::Closure(vec![rng.pick(gnames).clone()], rng.chance(1, 2)),
+            _ => GM::random(rng, terms, gnames, 1),
+        }
+    };
+    Some((ms, g))
+}
 fn ms_json(ms: &[TM; 3], g: &GM) -> Value {
     json!([ms[0].json(), ms[1].json(), ms[2].json(), g.json()])
 }
@@ -326,7 +368,11 @@ pub fn random_history<S: Store>(cfg: &Cfg, rng: &mut Rng, tr: &mut Trace, len: u
         } else if k < 58 {
             tr.emit(json!({"ev":"Quads","rows":sorted(s.quads())}));
         } else if k < 80 {
-            let (ms, g) = rand_ms(rng, &terms, &gnames, cfg.graph);
+            let (ms, g) = if rng.chance(1, 2) {
+                aimed_ms(rng, &s.quads(), &terms, &gnames, cfg.graph).unwrap_or_else(|| rand_ms(rng, &terms, &gnames, cfg.graph))
+            } else {
+                rand_ms(rng, &terms, &gnames, cfg.graph)
+            };
             let rows = s.matching(&ms, &g);
             tr.emit(json!({"ev":"Match","ms":ms_json(&ms,&g),"rows":sorted(rows)}));
         } else if k < 84 {
